@@ -12,6 +12,7 @@ import random
 
 from harness import proj
 from harness.core import REPO, Ctx, parallel_map
+NPD = proj.NPD
 
 TRACE_CFG = "SPECIFICATION Spec\nCHECK_DEADLOCK FALSE\n"
 MC_CFG = """SPECIFICATION Spec
@@ -143,7 +144,12 @@ def gen_transitions(args) -> list:
             if v == MIN_TAG:
                 prev = rnd.choice([NO_PREV, MIN_TAG])
         else:
-            if c < 0.35:   # whole hours after previous, around the hour-form limits
+            if c < 0.12:   # previous at a whole hour of its day, value exactly on a later UTC midnight (a sum that lands on a day boundary)
+                h0 = rnd.randint(1, 23)
+                pv = rnd.randint(imin // NPD + 2, imax // NPD - 3 * 10**5) * NPD + h0 * H
+                hours = (24 - h0) + 24 * rnd.choice([5, 6, 100, 1000, rnd.randint(5, 80000)])
+                vv = pv + hours * H
+            elif c < 0.35:   # whole hours after previous, around the hour-form limits
                 pv = rnd.randint(imin, imax - 3 * 10**6 * H) // M * M + rnd.choice([0, 0, 100, 10**9, 30 * 10**9])
                 hours = rnd.choice([0, 1, 127, 128, 129, 4000, 6000, 700000, 2**21 - 1, 2**21, 2**21 + 1, rnd.randint(1, 2**21 + 10)])
                 vv = pv + hours * H
